@@ -62,7 +62,7 @@ def run_checks(tree, checks, tier, tmp):
     env.update({"VERIF_REPO": tree, "VERIF_EVIDENCE_DIR": os.path.join(tmp, "ev"), "VERIF_REPLAY_DIR": os.path.join(tmp, "rp")})
     for c in checks:
         t0 = time.time()
-        rc, out = sh([os.path.join(HERE, "vf"), "check", c, "--tier", tier], cwd=HERE, env=env, timeout=1500)
+        rc, out = sh([os.path.join(HERE, "vf"), "check", c, "--tier", tier], cwd=HERE, env=env, timeout=1500 if tier == "quick" else 7200)
         lines = [l for l in out.split("\n") if l.startswith(("VIOLATION", "  key=", "HELD", "INCONCLUSIVE", "HARNESS-ERROR", "KNOWN-FINDING"))]
         res[c] = {"rc": rc, "tier": tier, "wall_s": round(time.time() - t0, 1), "verdict_lines": [l[:300] for l in lines[:6]]}
         print("   check %s (%s): rc=%d  %s" % (c, tier, rc, (lines[1] if len(lines) > 1 else (lines[0] if lines else ""))[:160]), flush=True)
